@@ -2,7 +2,7 @@
 import collections, hashlib, json, os, random, sys, time
 from . import env
 
-KNOWN = os.path.join(env.VERIF, 'known_findings.json')
+KNOWN_DIR = os.path.join(env.VERIF, 'known_findings')
 
 
 def canon(x):
@@ -27,7 +27,8 @@ class Ctx:
         self.broken = []          # (name, detail) obligations/correspondences that no longer check
         self.stale_supporting = []
         try:
-            self.known = [k for k in json.load(open(KNOWN))['findings'] if k['property'] == prop and k.get('status') == 'open']
+            self.known = [k for k in json.load(open(os.path.join(KNOWN_DIR, prop + '.json')))['findings']
+                          if k['property'] == prop and k.get('status') == 'open']
         except FileNotFoundError:
             self.known = []
 
